@@ -1,3 +1,157 @@
 package main
 
-func runC18Tables(c *Ctx) {}
+import (
+	"fmt"
+	"go/ast"
+	"go/types"
+	"sort"
+	"strings"
+)
+
+// runC18Tables: C18.T1 — the record wire tables agree: every chunk encoding has an entry in
+// headerFormatMappings; entries of one wire format share one header size and cover the four
+// chunk positions; every function that writes chunk-encoding constants into a header writes
+// encodings of ONE wire format and uses that format's header-size constant (and no other).
+func runC18Tables(c *Ctx) {
+	pkg := c.pkgOf("C18.T1", "rec")
+	if pkg == nil {
+		return
+	}
+	encs := constsInBlockOf(pkg, "fullChunkEncoding")
+	delete(encs, "invalidChunkEncoding")
+	if len(encs) < 12 {
+		c.Unresolved("C18.T1", fmt.Sprintf("only %d chunk encodings found", len(encs)))
+		return
+	}
+	init, _ := c.VarInit("C18.T1", "rec", "headerFormatMappings")
+	lit, ok := init.(*ast.CompositeLit)
+	if !ok {
+		c.Unresolved("C18.T1", "headerFormatMappings is not a composite literal")
+		return
+	}
+	type entry struct{ pos, wire, size string }
+	table := map[string]entry{}
+	for _, el := range lit.Elts {
+		kv, ok := el.(*ast.KeyValueExpr)
+		if !ok {
+			continue
+		}
+		key := exprString(kv.Key)
+		var e entry
+		if cl, ok := kv.Value.(*ast.CompositeLit); ok {
+			for _, f := range cl.Elts {
+				fkv, ok := f.(*ast.KeyValueExpr)
+				if !ok {
+					continue
+				}
+				switch exprString(fkv.Key) {
+				case "chunkPosition":
+					e.pos = exprString(fkv.Value)
+				case "wireFormat":
+					e.wire = exprString(fkv.Value)
+				case "headerSize":
+					e.size = exprString(fkv.Value)
+				}
+			}
+		}
+		table[key] = e
+	}
+	var names []string
+	for n := range encs {
+		names = append(names, n)
+	}
+	sort.Strings(names)
+	sizeOf := map[string]string{}
+	positions := map[string]map[string]bool{}
+	for _, n := range names {
+		e, has := table[n]
+		c.Ob("C18.T1", nil, "headerFormatMappings has an entry for "+n, c.P.Pos(lit.Pos()), has,
+			map[bool]string{true: "", false: "chunk encoding " + n + " has no header format: the reader treats such chunks as invalid"}[has])
+		if !has {
+			continue
+		}
+		if prev, seen := sizeOf[e.wire]; seen && prev != e.size {
+			c.Ob("C18.T1", nil, "entries of "+e.wire+" share one header size", c.P.Pos(lit.Pos()), false,
+				fmt.Sprintf("%s uses %s but another %s entry uses %s", n, e.size, e.wire, prev))
+		}
+		sizeOf[e.wire] = e.size
+		if positions[e.wire] == nil {
+			positions[e.wire] = map[string]bool{}
+		}
+		positions[e.wire][e.pos] = true
+	}
+	for w, ps := range positions {
+		ok := len(ps) == 4
+		c.Ob("C18.T1", nil, "wire format "+w+" has an encoding for each of the four chunk positions", c.P.Pos(lit.Pos()), ok,
+			map[bool]string{true: "", false: fmt.Sprintf("only %d distinct positions", len(ps))}[ok])
+	}
+	// writers
+	headerSizes := map[string]bool{}
+	for _, s := range sizeOf {
+		headerSizes[s] = true
+	}
+	nWriters := 0
+	for _, f := range pkg.Syntax {
+		for _, d := range f.Decls {
+			fd, ok := d.(*ast.FuncDecl)
+			if !ok || fd.Body == nil {
+				continue
+			}
+			used := map[string]bool{}
+			usedSizes := map[string]bool{}
+			ast.Inspect(fd.Body, func(n ast.Node) bool {
+				switch x := n.(type) {
+				case *ast.AssignStmt:
+					for _, r := range x.Rhs {
+						if id, ok := r.(*ast.Ident); ok {
+							if _, isEnc := encs[id.Name]; isEnc {
+								if _, isConst := pkg.TypesInfo.Uses[id].(*types.Const); isConst {
+									used[id.Name] = true
+								}
+							}
+						}
+					}
+				case *ast.Ident:
+					if headerSizes[x.Name] {
+						if _, isConst := pkg.TypesInfo.Uses[x].(*types.Const); isConst {
+							usedSizes[x.Name] = true
+						}
+					}
+				}
+				return true
+			})
+			if len(used) == 0 {
+				continue
+			}
+			nWriters++
+			wires := map[string]bool{}
+			for e := range used {
+				wires[table[e].wire] = true
+			}
+			name := fd.Name.Name
+			okWire := len(wires) == 1
+			c.Ob("C18.T1", nil, "writer "+name+" emits encodings of a single wire format", c.P.Pos(fd.Pos()), okWire,
+				map[bool]string{true: "", false: fmt.Sprintf("writes encodings of %d wire formats %v", len(wires), sortedKeys(wires))}[okWire])
+			if !okWire {
+				continue
+			}
+			var w string
+			for k := range wires {
+				w = k
+			}
+			okSize := usedSizes[sizeOf[w]]
+			var extra []string
+			for s := range usedSizes {
+				if s != sizeOf[w] {
+					okSize = false
+					extra = append(extra, s)
+				}
+			}
+			c.Ob("C18.T1", nil, "writer "+name+" lays out its payload with the header size of "+w, c.P.Pos(fd.Pos()), okSize,
+				map[bool]string{true: "", false: fmt.Sprintf("expected only %s, found %v %s: the reader would locate the payload at a different offset", sizeOf[w], sortedKeys(usedSizes), strings.Join(extra, ","))}[okSize])
+		}
+	}
+	if nWriters < 3 {
+		c.Unresolved("C18.T1", fmt.Sprintf("only %d header-writing functions found in package record", nWriters))
+	}
+}
